@@ -1,7 +1,287 @@
 import Driver.Common
+import Log4rsModel.TimeTrigger.Spec
+/-
+C16 driver. Case: kind tz secs nanos unit n modulate maxdelay arrivals; observation: see
+harness/src/c16.rs. The facts chrono told the code are echoed verbatim (they are inputs of the
+model); the model recomputes every result, schedule, firing decision and the file segmentation.
+-/
 namespace Driver.C16
-open Driver
+open Log4rs.Proto Log4rs.TimeTrigger Log4rs Driver
 
-def handle : Handler := fun _ _ => badCase "unimplemented"
+def decUnit : String → Option IUnit
+  | "second" => some .second
+  | "minute" => some .minute
+  | "hour" => some .hour
+  | "day" => some .day
+  | "week" => some .week
+  | "month" => some .month
+  | "year" => some .year
+  | _ => none
+
+def decInts (sep : Char) (s : String) : Option (List Int) := mapM? decInt (splitOnChar sep s)
+
+def decCivilTime (s : String) : Option CivilTime :=
+  match decInts ',' s with
+  | some [y, mo, d, h, mi, sec] => some ⟨y, mo, d, h, mi, sec⟩
+  | _ => none
+
+def decFacts (s : String) : Option Facts :=
+  match splitOnChar ';' s with
+  | [civ, lnow, offNow, mk, offTrunc, offRes, chg, rciv] =>
+    match decInts ',' civ, decInt lnow, decInt offNow, splitOnChar ',' mk,
+        decOpt decInt offTrunc, decOpt decInt offRes, decOpt decBool chg, decOpt decCivilTime rciv with
+    | some [y, m0, d, o0, w0, wd, h, mi, sec], some lnow, some offNow, [qy, qmo, qd, qh, qmi, qs, kind, a, b],
+        some offTrunc, some offRes, some chg, some rciv =>
+      match mapM? decInt [qy, qmo, qd, qh, qmi, qs, a, b] with
+      | some [qy, qmo, qd, qh, qmi, qs, a, b] =>
+        let args : CivilTime := ⟨qy, qmo, qd, qh, qmi, qs⟩
+        let r : Option (Option CivilTime × LocalResult) :=
+          if kind = "s" then some (some args, .single a)
+          else if kind = "a" then some (some args, .ambiguous a b)
+          else if kind = "n" then some (some args, .none)
+          else if kind = "x" then some (none, .none)
+          else none
+        r.map fun (mkArgs, mkRes) =>
+          { civ := ⟨y, m0, d, o0, w0, wd, h, mi, sec⟩, lnow, offNow, mkArgs, mkRes, offTrunc, offRes, chg, rciv }
+      | _ => none
+    | _, _, _, _, _, _, _, _ => none
+  | _ => none
+
+/-- `P.<class>` or UTC seconds -/
+def decResult (s : String) : Option (Option Int) :=
+  if s.startsWith "P." then some none else (decInt s).map some
+
+def renderOut : Out Int → String
+  | .ok t => toString t
+  | .err _ => "E"
+  | .panic w => "P." ++ w
+
+/-- the model's schedule at one instant, fed with chrono's answers as observed -/
+def modelNext (f : Facts) (u : IUnit) (n : Int) (modulate : Bool) : Except String (Out Int) :=
+  let q := mkQuery f.civ u n modulate
+  if q ≠ f.mkArgs then
+    .error ("mk-mismatch:" ++ (match q with
+      | some c => s!"{c.y},{c.mo},{c.d},{c.h},{c.mi},{c.s}"
+      | none => "x"))
+  else .ok (getNextTime f.civ u n modulate (fun _ => f.mkRes))
+
+def renderNext (f : Facts) (u : IUnit) (n : Int) (modulate : Bool) (at_ : Int) : String :=
+  if f.now ≠ at_ then "facts-are-of-another-instant" else
+  match modelNext f u n modulate with
+  | .error e => e
+  | .ok o => renderOut o
+
+/-- longer than chrono's whole date range: the class "absurd interval" -/
+def absurdN (u : IUnit) (n : Int) : Bool :=
+  let approx : Int := match u with
+    | .month => 28 * 86400
+    | .year => 365 * 86400
+    | u => unitSecs u
+  n * approx > DT_MAX
+
+def sigNext (f : Facts) (u : IUnit) (n : Int) (c : Clause) : String :=
+  let across := f.offTrunc.isSome ∧ f.offTrunc ≠ some f.offNow
+  let yearOutOfRange : Bool := match f.mkArgs with
+    | some q => decide (q.y < -262143 ∨ q.y > 262142)
+    | none => false
+  if absurdN u n ∨ yearOutOfRange then "C16/interval-overflows-chrono"
+  else match c with
+    | .panics =>
+      match f.mkRes, f.mkArgs with
+      | .ambiguous _ _, some _ => "C16/local-time-ambiguous-or-missing-at-truncation"
+      | .none, some _ => "C16/local-time-ambiguous-or-missing-at-truncation"
+      | _, _ => "C16/panic-unclassified"
+    | .notAfterNow => if across then "C16/not-after-now-across-offset-change" else "C16/not-after-now-unclassified"
+    | .offBoundary => if across then "C16/off-boundary-across-offset-change" else "C16/off-boundary-unclassified"
+
+def clauseName : Clause → String
+  | .panics => "panics"
+  | .notAfterNow => "next-not-strictly-after-now"
+  | .offBoundary => "next-not-on-unit-boundary"
+
+def tclauseName : TClause → String
+  | .panics => "trigger-panics"
+  | .firedWrong => "fired-not-iff-arrival-at-or-after-schedule"
+  | .reschedNotFuture => "rescheduled-not-strictly-after-arrival"
+  | .schedChanged => "schedule-changed-without-firing"
+  | .delayRange => "random-delay-out-of-range"
+
+def unitName : IUnit → String
+  | .second => "second" | .minute => "minute" | .hour => "hour" | .day => "day"
+  | .week => "week" | .month => "month" | .year => "year"
+
+def factTags (f : Facts) : List String :=
+  (match f.mkRes, f.mkArgs with
+    | _, none => ["mk-not-reached"]
+    | .single _, _ => []
+    | .ambiguous _ _, _ => ["mk-ambiguous"]
+    | .none, _ => ["mk-none"]) ++
+  (if f.offTrunc.isSome ∧ f.offTrunc ≠ some f.offNow then ["unit-start-in-other-offset"] else []) ++
+  (if f.chg = some true then ["offset-changes-before-next"] else []) ++
+  (if f.offNow % 3600 ≠ 0 then ["fractional-offset"] else [])
+
+/-- verdict of the `next` clauses on one instant; `ok` outside the statement's domain (n < 1) -/
+def verdictNext (f : Facts) (u : IUnit) (n : Int) (modulate : Bool) (result : Option Int) (pre : String) : Option String :=
+  if n < 1 then none
+  else (checkNext f u n modulate result).map fun c =>
+    "FAIL:" ++ pre ++ clauseName c ++ ";sig=" ++ sigNext f u n c
+
+structure Block where
+  rawFacts : String
+  facts : Facts
+  result : Option Int
+  rawResult : String
+
+def decBlock (rf rr : String) : Option Block :=
+  match decFacts rf, decResult rr with
+  | some facts, some result => some { rawFacts := rf, facts, result, rawResult := rr }
+  | _, _ => none
+
+def decInstant (s : String) : Option (Int × Nat) :=
+  match splitOnChar ':' s with
+  | [a, b] => match decInt a, decNat b with
+    | some a, some b => if b < 1000000000 then some (a, b) else none
+    | _, _ => none
+  | _ => none
+
+/-- `f:sched`, or anything else (a panic class, `E`, `?`) -/
+def decTrigObs (s : String) : TrigObs :=
+  match splitOnChar ':' s with
+  | [a, b] => match decBool a, decInt b with
+    | some a, some b => some (a, b)
+    | _, _ => none
+  | _ => none
+
+def pairUp : List String → Option (List (String × String))
+  | [] => some []
+  | a :: b :: rest => (pairUp rest).map ((a, b) :: ·)
+  | _ => none
+
+def renderSegs (segs : List (List Nat)) : String :=
+  ";".intercalate (segs.map fun s => encList "," (s.map toString))
+
+def handleNext (secs : Int) (u : IUnit) (n : Int) (modulate : Bool) (obs : List String) : Answer :=
+  match obs with
+  | [rf, rr] =>
+    match decBlock rf rr with
+    | none => badCase "facts"
+    | some b =>
+      let model := rf ++ " " ++ renderNext b.facts u n modulate secs
+      let spec := (verdictNext b.facts u n modulate b.result "").getD "ok"
+      let tags := ["next", unitName u, if modulate then "modulated" else "plain"] ++ factTags b.facts ++
+        (if n < 1 then ["n-below-1"] else if absurdN u n then ["n-absurd"] else if n = 1 then ["n-1"] else ["n-many"]) ++
+        (if b.result.isNone then ["impl-panics"] else [])
+      { model, spec, tags }
+  | _ => badCase "obs-arity"
+
+def handleTrig (secs : Int) (u : IUnit) (n : Int) (modulate : Bool) (maxDelay : Int) (arrivals : List (Int × Nat))
+    (obs : List String) : Answer :=
+  let pre := obs.takeWhile (· ≠ "T")
+  let post := (obs.dropWhile (· ≠ "T")).drop 1
+  match pairUp pre with
+  | none => badCase "blocks"
+  | some pairs =>
+    match mapM? (fun (p : String × String) => decBlock p.1 p.2) pairs with
+    | none => badCase "facts"
+    | some [] => badCase "no-block"
+    | some (b0 :: bs) =>
+      if bs.length ≠ arrivals.length then badCase "block-count" else
+      match post with
+      | [] => badCase "no-sched"
+      | s0 :: restObs =>
+        let blockModel := fun (p : Block × Int) => p.1.rawFacts ++ " " ++ renderNext p.1.facts u n modulate p.2
+        let head := " ".intercalate (((b0 :: bs).zip (secs :: arrivals.map (·.1))).map blockModel) ++ " T "
+        -- block verdicts first: the schedule computation at every instant involved
+        let blockVerdict : Option String :=
+          ((b0 :: bs).zipIdx.findSome? fun (b, i) =>
+            verdictNext b.facts u n modulate b.result (if i = 0 then "at-creation:" else s!"at-arrival-{i}:"))
+        let next0 : Out Int := match modelNext b0.facts u n modulate with
+          | .ok o => o
+          | .error e => .panic e
+        let implS0 := decInt s0
+        let d0 : Int := match implS0, b0.result with
+          | some s, some r => s - r
+          | _, _ => 0
+        let sched0 := schedule next0 maxDelay d0
+        match sched0 with
+        | .ok s =>
+          -- per arrival
+          let entries := restObs.take arrivals.length
+          let segObs := restObs.drop arrivals.length
+          if entries.length ≠ arrivals.length ∨ segObs.length ≠ 1 then
+            { model := head ++ renderOut sched0 ++ " (arity)", spec := (blockVerdict.getD "ok") } else
+          let tobs := entries.map decTrigObs
+          let steps : List (Int × Out Int) := (arrivals.zip (bs.zip tobs)).map fun ((a, _), (b, o)) =>
+            let nx : Out Int := match modelNext b.facts u n modulate with
+              | .ok o => o
+              | .error e => .panic e
+            let d : Int := match o, b.result with
+              | some (true, after), some r => after - r
+              | _, _ => 0
+            (a, schedule nx maxDelay d)
+          let outs := run (.live s) steps
+          let rendered := outs.map fun (o, st) => match o, st with
+            | .ok fired, .live t => encBool fired ++ ":" ++ toString t
+            | .ok _, .poisoned => "?"
+            | .err _, _ => "E"
+            | .panic w, _ => "P." ++ w
+          let flags := outs.map fun (o, _) => match o with
+            | .ok fired => some fired
+            | _ => none
+          let segs := if arrivals.isEmpty then "-" else renderSegs (segment flags)
+          let model := head ++ " ".intercalate (toString s :: rendered ++ [segs])
+          -- spec on the implementation's observation
+          let trigVerdict : Option String :=
+            match implS0 with
+            | none => some "FAIL:at-creation:trigger-panics;sig=C16/trigger-creation-panics"
+            | some is0 =>
+              if ¬ delayOk maxDelay d0 then some "FAIL:at-creation:random-delay-out-of-range;sig=C16/delay-out-of-range" else
+              let walk := checkTrigger maxDelay is0
+                ((arrivals.zip (bs.zip tobs)).map fun ((a, _), (b, o)) => (a, b.result, o))
+              match walk with
+              | some (i, c) =>
+                let sig := match c with
+                  | .panics =>
+                    -- poisoned lock: the class of the first panic
+                    let firstPanic := (bs.zip tobs).find? fun (_, o) => o.isNone
+                    match firstPanic with
+                    | some (b, _) => sigNext b.facts u n .panics
+                    | none => "C16/trigger-panics"
+                  | .reschedNotFuture => match bs[i]? with
+                    | some b => sigNext b.facts u n .notAfterNow
+                    | none => "C16/trigger"
+                  | c => "C16/trigger-" ++ tclauseName c
+                some (s!"FAIL:at-arrival-{i + 1}:" ++ tclauseName c ++ ";sig=" ++ sig)
+              | none =>
+                let implFlags := tobs.map fun o => o.map (·.1)
+                let wantSegs := if arrivals.isEmpty then "-" else renderSegs (segment implFlags)
+                if segObs ≠ [wantSegs] then some ("FAIL:files-not-cut-before-the-firing-record expected " ++ wantSegs ++ ";sig=C16/trigger-segmentation")
+                else none
+          let nonDecreasing := (arrivals.zip (arrivals.drop 1)).all fun ((a, an), (b, bn)) => a < b ∨ (a = b ∧ an ≤ bn)
+          let firedCount := (tobs.filter fun o => match o with | some (true, _) => true | _ => false).length
+          let tags := ["trig", unitName u, if modulate then "modulated" else "plain",
+              if maxDelay > 0 then "delay" else "no-delay", s!"fired-{firedCount}",
+              if nonDecreasing then "monotone" else "clock-steps-back"] ++
+            ((b0 :: bs).flatMap fun b => factTags b.facts).eraseDups ++
+            (if tobs.any (·.isNone) then ["impl-panics"] else [])
+          { model, spec := (blockVerdict <|> trigVerdict).getD "ok", tags }
+        | o =>
+          let model := head ++ renderOut o
+          let spec := (blockVerdict.getD "FAIL:at-creation:trigger-panics;sig=C16/trigger-creation-panics")
+          { model, spec, tags := ["trig", unitName u, "creation-panics"] ++ factTags b0.facts }
+
+def handle : Handler := fun cas obs =>
+  let obs := obs.flatMap (splitOnChar ' ')
+  match cas with
+  | [kind, _tz, secs, nanos, unit, n, modulate, maxDelay, arrivals] =>
+    match decInt secs, decNat nanos, decUnit unit, decInt n, decBool modulate, decNat maxDelay,
+        mapM? decInstant (decList ',' arrivals) with
+    | some secs, some _, some u, some n, some modulate, some maxDelay, some arrivals =>
+      if kind = "next" then
+        if arrivals.isEmpty ∧ maxDelay = 0 then handleNext secs u n modulate obs else badCase "next-extra"
+      else if kind = "trig" then handleTrig secs u n modulate maxDelay arrivals obs
+      else badCase "kind"
+    | _, _, _, _, _, _, _ => badCase "fields"
+  | _ => badCase "arity"
 
 end Driver.C16
